@@ -44,7 +44,7 @@ def sop(t):
     if t[0] == "mkdir":
         return "(SMkdir %s)" % cbool(bool(t[1]))
     if t[0] not in SOP:
-        raise fw.Broken("unexpected operation in a clean trace: %r" % (t,))
+        return "SCopy"      # not a member operation of the model: the traces will disagree (tie mismatch)
     return SOP[t[0]]
 
 
@@ -70,6 +70,17 @@ class Shapes:
 
     def __init__(self):
         self.save, self.load = {}, {}
+        self.frame_bad = []     # clean traces whose fixed frame is not the modelled one (-> tie mismatch)
+
+    @staticmethod
+    def strip(tr, pro, epi):
+        ok = tr[:len(pro)] == pro and (not epi or tr[-len(epi):] == epi) and len(tr) >= len(pro) + len(epi)
+        if ok:
+            return tr[len(pro):len(tr) - len(epi)], True
+        i = 0
+        while i < len(pro) and i < len(tr) and tr[i] == pro[i]:
+            i += 1
+        return tr[i:], False
 
     def calibrate(self, kinds):
         cases = [{"model": k, "saves": [{"fmt": f, "fault": None}], "observe": "none", "loads": [{"fault": None, "name": "R"}]}
@@ -84,17 +95,19 @@ class Shapes:
                 pro, epi = [["tmpdir"], ["mkdir", 1], ["mkroot"]], [["move", 0], ["cleanup"]]
             else:
                 pro, epi = [["mkdir", 1]], []
-            if tr[:len(pro)] != pro or (epi and tr[-len(epi):] != epi) or r["saves"][0]["exc"]:
-                raise fw.Broken("clean %s save of %s has an unexpected frame: %r" % (f, k, tr))
-            self.save[(k, f)] = tr[len(pro):len(tr) - len(epi)]
+            self.save[(k, f)], ok = self.strip(tr, pro, epi)
+            if not ok or r["saves"][0]["exc"]:
+                self.frame_bad.append({"case": c, "detail": "clean %s save of %s: operations %r (exception %r) do not have the modelled frame"
+                                       % (f, k, tr, r["saves"][0]["exc"])})
             lt = r["loads"][0]["trace"]
             if f == "zip":
                 pro, epi = [["ropen"], ["rfill"], ["tmpdir"], ["ropen"], ["rfill"]], [["cleanup"]]
             else:
                 pro, epi = [["ropen"], ["rfill"], ["ropen"], ["rfill"]], []
-            if lt[:len(pro)] != pro or (epi and lt[-len(epi):] != epi) or r["loads"][0]["exc"]:
-                raise fw.Broken("clean load of a %s save of %s has an unexpected frame: %r" % (f, k, lt))
-            self.load[(k, f)] = lt[len(pro):len(lt) - len(epi)]
+            self.load[(k, f)], ok = self.strip(lt, pro, epi)
+            if not ok or r["loads"][0]["exc"]:
+                self.frame_bad.append({"case": c, "detail": "clean load of a %s save of %s: operations %r (exception %r) do not have the modelled frame"
+                                       % (f, k, lt, r["loads"][0]["exc"])})
 
     def nsave(self, k, f):
         return len(self.save[(k, f)]) + (5 if f == "zip" else 1)
@@ -124,20 +137,23 @@ def gen_cases(tier, rng, sh, out):
     cases, filtered = [], 0
     kinds = KINDS_QUICK if tier == "quick" else KINDS
 
-    def add(kind, saves, final, tag):
+    def add(kind, saves, final, tag, observe_from=0):
         nonlocal filtered
         if not calm(saves):
             filtered += 1
             return
-        cases.append({"model": kind, "saves": saves, "final": final, "tag": tag})
+        cases.append({"model": kind, "saves": saves, "final": final, "tag": tag, "observe_from": observe_from})
 
     # A. every fault point of one save after n clean saves (pure and mixed formats)
-    prefixes = [0, 1, 2, 4] if tier == "quick" else [0, 1, 2, 3, 4, 5]
     for kind in kinds:
+        if tier != "quick":
+            prefixes = [0, 1, 2, 3, 4, 5]
+        else:
+            prefixes = [0, 2, 4] if kind in ("plain", "module") else [1, 4]
         for f in ("zip", "dir"):
             for n in prefixes:
                 for k in range(sh.nsave(kind, f) + min(n, 4) + 1):
-                    add(kind, [sv(f) for _ in range(n)] + [sv(f, k)], f, "single")
+                    add(kind, [sv(f) for _ in range(n)] + [sv(f, k)], f, "single", observe_from=max(0, n - 1))
         mixes = [["zip", "dir"], ["dir", "zip"]] if tier == "quick" else [list(p) for p in itertools.product(("zip", "dir"), repeat=2)] + [["dir", "zip", "dir"], ["zip", "dir", "zip"]]
         for pre in mixes:
             for f in ("zip", "dir"):
@@ -149,7 +165,7 @@ def gen_cases(tier, rng, sh, out):
     for kind in (["plain"] if tier == "quick" else ["plain", "module", "nested"]):
         n1 = sh.nsave(kind, "zip") + 1
         for k1 in range(n1 + 1):
-            for k2 in range(n1 + 1):
+            for k2 in range(k1 % 2 if tier == "quick" else 0, n1 + 1, 2 if tier == "quick" else 1):
                 add(kind, [sv("zip"), sv("zip", k1), sv("zip", k2)], "zip", "double-zip")
         if tier != "quick" or kind == "plain":
             nd = sh.nsave(kind, "dir") + 1
@@ -157,7 +173,7 @@ def gen_cases(tier, rng, sh, out):
                 for k2 in range(0, nd + 1, 1 if tier != "quick" else 2):
                     add(kind, [sv("dir"), sv("zip", k1), sv("dir", k2)], "dir", "double-zip-dir")
     # C. random sequences of 1..4 saves (then a clean one), faults anywhere, natural pickling failures
-    nrand = 250 if tier == "quick" else 4000
+    nrand = 200 if tier == "quick" else 4000
     tries = 0
     while nrand > 0 and tries < 100000:
         tries += 1
@@ -307,6 +323,7 @@ def oracle_saves(c, r, strict=True):
         if s.get("fault") is None and not s.get("natural") and res["exc"] is not None:
             fails.append("%s: a save without an injected fault raised %s" % (where, res["exc"]))
         if "slots" not in res:
+            prev = None
             continue
         sl = res["slots"]
         gens = [complete_gen(o) for o in sl]
@@ -375,12 +392,19 @@ def script_for(c):
 
 # --------------------------------------------------------------------------
 def run_cases(cases):
-    os.makedirs(TMP, exist_ok=True)
+    """every run works below its own directory /verif/build/C14tmp/run_<pid> and removes it"""
+    import shutil
+    mine = os.path.join(TMP, "run_%d" % os.getpid())
+    os.makedirs(mine, exist_ok=True)
+    os.environ["C14_TMP"] = mine
     try:
         return fw.run_driver("backup", cases, chunk=max(1, min(40, (len(cases) + fw.JOBS - 1) // fw.JOBS)))
     finally:
-        import shutil
-        shutil.rmtree(TMP, ignore_errors=True)
+        shutil.rmtree(mine, ignore_errors=True)
+        try:
+            os.rmdir(TMP)
+        except OSError:
+            pass
 
 
 def witnesses(out, sh):
@@ -440,6 +464,7 @@ def run(tier, seed, rng):
         i = idx[j]
         out.tie_mismatches.append({"case": cases[i], "impl": res[i], "detail": "Backup/Model.v and the implementation disagree",
                                    "script": script_for(cases[i])})
+    out.tie_mismatches += sh.frame_bad
     witnesses(out, sh)
     out.evaluations = len(cases)
     out.traces_validated = len(terms) - len(bad)
@@ -456,15 +481,16 @@ def run(tier, seed, rng):
 
 
 def _opdist(res):
+    """which kind of operation was the point of failure, over all fired faults"""
     d = {}
     for r in res:
-        for s in r["saves"] + r.get("loads", []):
-            if s["fired"] and s["trace"]:
-                # the faulted operation is the one at index fault; traces end with unwinding
-                pass
         for s in r["saves"]:
-            if s["fired"]:
-                k = s["trace"][s["fault_index"]][0] if "fault_index" in s else "?"
+            if s["fired"] and "fault_index" in s:
+                k = s["trace"][s["fault_index"]][0]
+                d[k] = d.get(k, 0) + 1
+        for l in r.get("loads", []):
+            if l["fired"]:
+                k = "load:" + l["trace"][l["fault_index"]][0] if "fault_index" in l else "load:?"
                 d[k] = d.get(k, 0) + 1
     return d
 
